@@ -81,9 +81,16 @@ static void run_op(const std::vector<std::string> &w, const std::string &, out &
     }
     if (op == "vecbuf")
     {
-        // the buffer the self-sizing overload allocates: ret.resize(sz*2+4) on an empty vector
-        // allocates exactly that many bytes and the later shrinking resize keeps the allocation,
-        // so capacity() of the returned vector is the buffer size the frame was written into
+        // The self-sizing overloads.  Round 3b (CORRECTION, benign change C04-b13-1): the property says "the frame
+        // is at most 2n+4 bytes long" and "the encoders that size their own output buffer never write outside
+        // it" - it does NOT say that the buffer has the worst-case size.  An overload that measures the frame
+        // first and allocates exactly its length satisfies every clause.  So the capacity of the returned vector
+        // is no longer part of the compared result (it is reported as a tag) and the oracle demands only:
+        // capacity() >= size() = frame length, frame length <= 2n+4, every clause of the frame sentence, both
+        // twins return the same frame - and no store outside the allocation, which is ASan's job on the real
+        // vector (operator new block of exactly the requested size): the stream contains, for every self-sizing
+        // overload, worst-case payloads (every byte needs escaping AND the CRC is a marker) at many lengths, so
+        // an under-sized allocation (seeded 2n+2 / 2n+3) overflows under ASan.
         std::vector<bytes> pieces;
         for (size_t i = 2; i < w.size(); i++) pieces.push_back(unhex(w[i]));
         gstuff_context ctx;
@@ -95,21 +102,27 @@ static void run_op(const std::vector<std::string> &w, const std::string &, out &
             bufs.push_back(new exact_buf(x));
             vec.push_back(iovec{bufs.back()->p, x.size()});
         }
+        bytes p;
+        for (auto &x : pieces) p.insert(p.end(), x.begin(), x.end());
+        size_t n = p.size();
+        auto judge = [&](const std::vector<uint8_t> &f, const char *who) {
+            if (f.capacity() < f.size()) o.fail(std::string(who) + ": capacity() of the returned vector < its size()");
+            if (f.size() > 2 * n + 4) o.fail(std::string(who) + ": frame longer than 2n+4");
+            o.tag(f.capacity() == f.size() ? "alloc-exact" : f.capacity() == 2 * n + 4 ? "alloc-2n+4" : f.capacity() < 2 * n + 4 ? "alloc-between" : "alloc-more");
+        };
         std::vector<uint8_t> f = gstuffing_v(vec.data(), vec.size(), ctx);
-        size_t n = total_len(pieces);
-        // Canonical observable (round 3, correction): the property fixes only that the buffer is large enough
-        // for every frame of that payload length (2n+4); a growth policy that allocates MORE (reserve with
-        // slack, a twin that rounds up) is not a violation, so the value compared with the model is
-        // min(capacity, 2n+4) - the model's vecBufSize - and each twin is judged on its own.
-        size_t cap = f.capacity();
-        if (f.capacity() < 2 * n + 4) o.fail("self-sized buffer smaller than the worst-case frame 2n+4");
+        judge(f, "gstuffing_v(vec)");
         if (pieces.size() == 1)
         {
             std::vector<uint8_t> g = gstuffing(igris::buffer((char *)bufs[0]->p, pieces[0].size()), ctx);
-            if (g.capacity() < 2 * n + 4) o.fail("gstuffing(buffer): self-sized buffer smaller than the worst-case frame 2n+4");
-            cap = std::min(cap, g.capacity());
+            judge(g, "gstuffing(buffer)");
+            if (g != f) o.fail("gstuffing(buffer) != gstuffing_v(vec)");
+            o.tag("both-twins");
         }
-        o.result = std::to_string(std::min(cap, 2 * n + 4));
+        else
+            o.tag("iovec");
+        o.result = std::to_string(f.size());
+        check_frame(codec, p, f, o);
         for (auto b : bufs) delete b;
         o.tag("self-sized");
         return;
@@ -210,6 +223,21 @@ static bytes sess_payload(rng &r, const std::vector<alphabet> &as, size_t n)
     bytes p(n);
     for (auto &x : p) x = r.chance(85) ? pool[r.below(pool.size())] : (uint8_t)r.next();
     return p;
+}
+// a WORST-CASE payload of length n: every byte is a marker (needs escaping) and the CRC-8 is a marker too, so
+// the frame has exactly 2n+4 bytes.  Random search (3 of 256 CRC values qualify); empty result = none found
+// (e.g. n < 5 for the default alphabet, n < 4 for v0)
+static bytes worst_payload(rng &r, const alphabet &a, size_t n)
+{
+    const uint8_t mk[3] = {a.start, a.stop, a.stub};
+    bytes p(n);
+    for (int tries = 0; tries < 4000 && n > 0; tries++)
+    {
+        for (auto &x : p) x = mk[r.below(3)];
+        uint8_t crc = ref_crc8(p);
+        if (crc == a.start || crc == a.stop || crc == a.stub) return p;
+    }
+    return bytes();
 }
 static std::string pieces_tok(rng &r, const bytes &p)
 {
@@ -391,6 +419,25 @@ static void gen(rng &r, const std::string &tier)
                 if (rep % 2) printf("vecbuf %s %s\n", codec, hex(p).c_str());
                 else printf("vecbuf %s %s %s\n", codec, hex(bytes(p.begin(), p.begin() + cut)).c_str(), hex(bytes(p.begin() + cut, p.end())).c_str());
             }
+        // (3c) round 3b: WORST-CASE payloads (frame = exactly 2n+4 bytes) through EVERY self-sizing overload at
+        // many lengths: one piece (gstuffing_v(vec) and gstuffing(buffer)) and split into 2..3 pieces (gstuffing_v
+        // only).  The oracle no longer demands a 2n+4 allocation; an allocation that is too SMALL shows here as
+        // an ASan heap-buffer-overflow on the real vector.
+        if (ci < 2)
+        {
+            std::vector<size_t> lens = {5, 6, 7, 8, 9, 15, 16, 17, 31, 32, 33, 63, 64, 65, 100, 127, 128, 255, 256, 257, 600, 1000};
+            if (th) for (size_t n : {1023, 1024, 4095, 4096, 4097, 20000, 65535, 65536}) lens.push_back(n);
+            for (int rep = 0; rep < (th ? 4 : 1); rep++)
+                for (size_t n : lens)
+                {
+                    bytes p = worst_payload(r, a, n);
+                    if (p.empty()) continue;
+                    printf("vecbuf %s %s\n", codec, hex(p).c_str());
+                    size_t c1 = r.below(n + 1), c2 = c1 + r.below(n - c1 + 1);
+                    printf("vecbuf %s %s %s %s\n", codec, hex(bytes(p.begin(), p.begin() + c1)).c_str(),
+                           hex(bytes(p.begin() + c1, p.begin() + c2)).c_str(), hex(bytes(p.begin() + c2, p.end())).c_str());
+                }
+        }
         // (4) receive buffers that are too small: must report overflow
         for (int rep = 0; rep < (th ? 300 : 40); rep++)
         {
